@@ -15,6 +15,13 @@ CHECKS = {
  "C08": dict(category="model_checking", technique="deviation-bounded depth-first exploration of action-operation histories (yyless/yyunput/yyinput/yymore/return, arguments exhaustive, up to two operations per action) on the real scanner against a deque reference model, iterating the bound 0..k",
    text="Three scanners x %pointer/%array x non-reentrant/reentrant/c99 x yylineno on/off x buffer sizes {default,1,2,3,4}: for every input up to length L every history with at most k operations (k=2 quick, 3 thorough; each argument value enumerated) is executed through yylex(); after every action and every operation yytext, yyleng, the return value of yyinput, yylineno and finally the consumed stream are compared with the model.",
    note="Combinations the manual leaves undefined are not generated (yytext after yyunput under %pointer, yyless below the yymore prefix or after yyunput/yyinput in one action, yymore with yyinput/yyunput in one action); push-back overflow accepted only for explicit buffers <= 8 bytes.", design="2/C08"),
+
+ "C07": dict(category="model_checking", technique="exhaustive enumeration of accept/reject decision vectors (every action's decision is a choice point, unbounded budget) for every input up to length L, visiting order compared with the reference candidate list sorted by (-total length, rule)",
+   text="~1000 rule sets (ordered pairs and triples from a pool with ties, optional tails and trailing context; 4-7 rule sets; a NUL rule set) x yyreject()/REJECT/%option reject spellings x non-reentrant/reentrant/c99/%array x -Ce/-C with one-byte reads: every sequence of accept/reject decisions is executed through the real yylex(); each visited (rule, yyleng, yytext) must be the next pair of the reference order and the default rule must follow the last rejection. Generation with -Cf/-CF/-f/-F must be refused with a message; a token longer than the non-growing buffer must end in the documented fatal error.",
+   note="Tokens within buffer capacity; reference candidate order computed from the reference DFA's accept sets.", design="2/C07"),
+ "C09": dict(category="model_checking", technique="bounded-exhaustive enumeration of newline-capable pattern forms x inputs x operation histories (deviation-bounded DFS), yylineno compared with the model's newline counter at every action and after every operation",
+   text="~190 pattern forms that can match a newline through literals, escapes, classes, negated classes, POSIX expressions, {-}/{+}, (?s:.), definitions, trailing context, $ and '|' actions, in non-reentrant/reentrant/c99/-Cf/%array scanners with tiny buffers: for every input over {a,\\n,b} up to length L and every history of yyless/yyunput/yyinput/yymore/return/set-line-number within the deviation bound (and all reject decisions) the line number seen by each action equals 1 + newlines consumed; without %option yylineno a user-set value survives every input and operation.",
+   note="'^' with yyless/yyunput not generated; c99 '|' actions are refused by flex itself (m4 error) and left out; per-buffer counts under buffer switching belong to C11.", design="2/C09"),
 }
 
 NOT_YET = "check under construction in this round; will be claimed once it has run end-to-end on the unchanged tree"
